@@ -6,13 +6,15 @@
       length is not 8, and totality/bijectivity on 8-byte inputs;
     - JSON form "[id,gen]" (modelled as a decimal printer/parser; encoding/json itself is not
       verified): round trip for all pairs;
-    - dump/load of the entity pool: DumpEntities copies the pool (entities, next, available)
-      verbatim and LoadEntities installs that copy, so the loaded pool is the dumped pool; hence
-      Alive agrees on every handle (issued or not) and every sequence of subsequent creations
-      returns the same handles in both worlds (whatever the free-list shape).
+    - dump/load of the entity pool (Model/DumpLoad.v mirrors the guard and the installation done
+      by LoadEntities): a new world and a world after Reset (after any history) accept the dump
+      of any pool and then hold exactly that pool; hence Alive agrees on every handle (issued or
+      not) and every sequence of subsequent creations returns the same handles in both worlds
+      (whatever the free-list shape); a world that holds or has held entities since its last
+      Reset rejects every dump, and there is no other failure.
     The rebuilding of the entity index / component-less table by LoadEntities is covered by the
     Go-side twin-world oracle (harness/codec), not by a theorem. *)
-From Ark Require Import Model.Base Model.Pool Model.Codec Proofs.CodecProofs.
+From Ark Require Import Model.Base Model.Pool Model.Codec Model.DumpLoad Proofs.CodecProofs Proofs.DumpLoadProofs.
 
 Theorem C17_bin_roundtrip :
   forall id gen, (id < u32_bound)%N -> (gen < u32_bound)%N ->
@@ -40,22 +42,50 @@ Theorem C17_json_roundtrip :
   unmarshal_json (marshal_json id gen) = Some (id, gen).
 Proof. exact json_roundtrip. Qed.
 
-(** Dump / load at pool level (unsafe.go DumpEntities / LoadEntities). *)
-Definition pool_dump (p : pool) : list ent * nat * nat := (pe p, pnext p, pavail p).
-Definition pool_load (d : list ent * nat * nat) : pool :=
-  let '(es, nx, av) := d in {| pe := es; pnext := nx; pavail := av |}.
+(** Dump / load at pool level (unsafe.go DumpEntities / LoadEntities; Model/DumpLoad.v, tied to
+    the code on every run by the dump/load cases of the codec correspondence: pool scripts run on
+    the extracted model and through the World API, compared on acceptance, Alive of every issued
+    handle and the following creations). [has_reserved] (the two reserved slots are there) holds
+    for every pool any script reaches ([C17_scripts_reserved]). *)
+Theorem C17_scripts_reserved : forall ops, has_reserved (fst (prun ops)).
+Proof. exact prun_reserved. Qed.
 
-Lemma pool_load_dump p : pool_load (pool_dump p) = p.
-Proof. destruct p; reflexivity. Qed.
+(** Loading into an empty (new) world or into a world after Reset - whatever that world's
+    history - is accepted and installs exactly the dumped pool ... *)
+Theorem C17_load_fresh_or_reset : forall p t, has_reserved p ->
+  pool_load pool_new (pool_dump p) = Some p /\ pool_load (pool_reset t) (pool_dump p) = Some p.
+Proof. intros p t H; split; [apply load_fresh | apply load_reset]; exact H. Qed.
 
-Fixpoint gets (n : nat) (p : pool) : list ent :=
-  match n with O => [] | S n' => let '(e, p') := pool_get p in e :: gets n' p' end.
+(** ... hence Alive agrees on every handle (issued or not) ... *)
+Theorem C17_load_dump_alive : forall p t q h, has_reserved p ->
+  pool_load pool_new (pool_dump p) = Some q \/ pool_load (pool_reset t) (pool_dump p) = Some q ->
+  pool_alive q h = pool_alive p h.
+Proof.
+  intros p t q h H [E|E]; [rewrite load_fresh in E by exact H | rewrite load_reset in E by exact H];
+  injection E as <-; reflexivity.
+Qed.
 
-Theorem C17_load_dump_alive : forall p h, pool_alive (pool_load (pool_dump p)) h = pool_alive p h.
-Proof. intros p h; rewrite pool_load_dump; reflexivity. Qed.
+(** ... and any number of consecutive creations returns the same handles in both worlds. *)
+Theorem C17_load_dump_future : forall p t q n, has_reserved p ->
+  pool_load pool_new (pool_dump p) = Some q \/ pool_load (pool_reset t) (pool_dump p) = Some q ->
+  pgets n q = pgets n p.
+Proof.
+  intros p t q n H [E|E]; [rewrite load_fresh in E by exact H | rewrite load_reset in E by exact H];
+  injection E as <-; reflexivity.
+Qed.
 
-Theorem C17_load_dump_future : forall p n, gets n (pool_load (pool_dump p)) = gets n p.
-Proof. intros p n; rewrite pool_load_dump; reflexivity. Qed.
+(** LoadEntities fails exactly on a world that holds, or has held since its last Reset, an
+    entity (more than the reserved slots, or a non-empty free list); nothing is installed then. *)
+Theorem C17_load_rejected_iff : forall t d,
+  pool_load t d = None <-> (reserved < length (pe t) \/ 0 < pavail t).
+Proof. exact load_rejected_iff. Qed.
+
+(** Non-vacuity: a source with a recycled slot, a target with history; rejected before the
+    Reset, accepted after it; the recycled handle is dead, its successor alive, next creation
+    takes the free slot with the bumped generation. *)
+Example C17_dumpload_example :
+  dumpload_case [2; 3; 0;0; 0;0; 1;0;  0;0; 0;0]%Z = [1; 1; 0; 1; 2; 1; 4; 0]%Z.
+Proof. vm_compute. reflexivity. Qed.
 
 Example C17_example :
   unmarshal_bin (marshal_bin 4294967295 65536) = Some (4294967295%N, 65536%N) /\
@@ -64,5 +94,5 @@ Example C17_example :
 Proof. vm_compute. repeat split; reflexivity. Qed.
 
 (** One traversal of the dependency graph for all theorems of this file. *)
-Definition C17_all := (C17_bin_roundtrip, C17_bin_shape, C17_bin_reject, C17_bin_bijective, C17_bin_append, C17_json_roundtrip, C17_load_dump_alive, C17_load_dump_future).
+Definition C17_all := (C17_bin_roundtrip, C17_bin_shape, C17_bin_reject, C17_bin_bijective, C17_bin_append, C17_json_roundtrip, C17_scripts_reserved, C17_load_fresh_or_reset, C17_load_dump_alive, C17_load_dump_future, C17_load_rejected_iff).
 Print Assumptions C17_all.
